@@ -304,6 +304,13 @@ cif_value_tp *ApiRun::make_value(const Op &o, MValue &snap, uint64_t salt) {
     std::string a = canon(specv, VE_ROUNDTRIP), b = canon(snap, VE_ROUNDTRIP);
     // VE_ROUNDTRIP folds number kinds; here kinds must match exactly, so compare kind separately
     if (specv.kind != snap.kind || a != b) { cif_value_free(v); violate("value_build", "mismatch", strprintf("value built through the API reads back differently: wanted %s got %s", show(specv).c_str(), show(snap).c_str())); }
+    // a quoted string that spells a reserved word: now and then the caller tries to mark it unquoted, which must be refused; if the
+    // library lets it through, the value goes on as it now is and the write / re-parse oracles see the consequences
+    if (snap.kind == CIF_CHAR_KIND && snap.quoted && is_reserved_word(snap.text) && r.chance(1, 2)) {
+        int q = cif_value_try_quoted(v, CIF_NOT_QUOTED);
+        ev("cif_value_try_quoted(reserved word, NOT_QUOTED) -> %s", rc_name(q)); g_stats.inc(q == CIF_OK ? "value.reserved_unquote_accepted" : "value.reserved_unquote_refused");
+        if (q == CIF_OK) snap = snapshot_value(v);
+    }
     return v;
 }
 // after a store: the caller's object is mutated or released; the stored copy must not care (C07.independent)
